@@ -3,11 +3,12 @@ import Qats.Driver.FindReversals
 import Qats.Gen.DriverGen
 import Qats.Driver.SN
 import Qats.Driver.Motion
+import Qats.Driver.Dist
 /-! All line-protocol handlers (core Lean only; imported by `Driver.lean`). -/
 namespace Qats.Driver
 
 def handlers : List (List String → Option String) :=
-  [Rainflow.handle, FindReversals.handle, Qats.Gen.handleGen, SN.handle, Motion.handle]
+  [Rainflow.handle, FindReversals.handle, Qats.Gen.handleGen, SN.handle, Motion.handle, Dist.handle]
 
 def dispatch (toks : List String) : String :=
   match handlers.findSome? (fun h => h toks) with
